@@ -353,3 +353,39 @@ def result_of(P, x, callterm):
 
 def in_module(f, mod):
     return f.id.startswith('tarpc::' + mod + '::') or f.id == 'tarpc::' + mod
+
+
+NEG = {'Lt': 'Ge', 'Le': 'Gt', 'Gt': 'Le', 'Ge': 'Lt', 'Eq': 'Ne', 'Ne': 'Eq'}
+SWAP = {'Lt': 'Gt', 'Le': 'Ge', 'Gt': 'Lt', 'Ge': 'Le', 'Eq': 'Eq', 'Ne': 'Ne'}
+
+
+def cmp_facts(F, P, f, bb):
+    """comparison facts (op, a_term, b_term) that hold on entry to block bb because bb is dominated by
+    the corresponding edge of a switch on that comparison (`Not` handled)."""
+    out = []
+    for i, b in enumerate(f.blocks):
+        if b['cleanup'] or b['term']['k'] != 'switch':
+            continue
+        d = b['term']['discr']
+        if d['k'] not in ('copy', 'move') or d['pl']['p']:
+            continue
+        if f.local_ty(d['pl']['l']) != 'bool':
+            continue
+        t = P.operand(f, d, at=i)
+        pol = True
+        n = 0
+        while t[0] == 'un' and t[1] == 'Not' and n < 4:
+            t, pol, n = t[2], not pol, n + 1
+        if t[0] != 'bin' or t[1] not in NEG:
+            continue
+        targets = dict((v, x) for v, x in b['term']['targets'])
+        false_b = targets.get(0, b['term']['otherwise'])
+        true_b = targets.get(1, b['term']['otherwise'])
+        if false_b == true_b:
+            continue
+        for edge_b, truth in ((true_b, True), (false_b, False)):
+            if cfg.dominates(f, edge_b, bb):
+                holds = truth == pol
+                op = t[1] if holds else NEG[t[1]]
+                out.append((op, t[2], t[3], i))
+    return out
